@@ -131,7 +131,50 @@ def msg_rule(txt):
     return txt
 
 
+def expand_validate_fields(e):
+    """Mechanical macro_rules expansion of `validate_fields!(Struct, f1, f2, ..)` using the macro text
+    found in /repo (single arm `($struct_name:ident, $($field:ident),*) => { BODY }`)."""
+    mp = REPO + "/" + e["macro_file"]
+    mt = open(mp).read()
+    k = mt.index("macro_rules! validate_fields")
+    arm = mt.index("=>", k)
+    body_end = match_brace(mt, arm)
+    body = mt[mt.index("{", arm) + 1:body_end - 1]
+    p = REPO + "/" + e["file"]
+    t = open(p).read()
+    m = re.search(r"validate_fields!\(\s*" + re.escape(e["struct"]) + r"\s*,([^)]*)\)", t)
+    if not m:
+        raise ExtractError(f"lost anchor: validate_fields!({e['struct']}, ..) in {e['file']}")
+    fields = [f.strip() for f in m.group(1).split(",") if f.strip()]
+    rs = body.index("$(")
+    depth = 0
+    i = rs + 1
+    while True:
+        c = body[i]
+        if c == "(":
+            depth += 1
+        elif c == ")":
+            depth -= 1
+            if depth == 0:
+                break
+        i += 1
+    rep = body[rs + 2:i]
+    if body[i + 1] != "*":
+        raise ExtractError("unexpected macro repetition form")
+    expanded = body[:rs] + "".join(rep.replace("$field", f) for f in fields) + body[i + 2:]
+    expanded = expanded.replace("$struct_name", e["struct"])
+    return expanded
+
+
 def extract_item(e):
+    if e.get("kind") == "macro_validate_fields":
+        item = rewrite(expand_validate_fields(e))
+        item = msg_rule(item)
+        sig, body = split_sig(item)
+        if e.get("ret"):
+            m = re.search(r"->\s*([^{]+?)\s*$", sig, re.S)
+            sig = sig[:m.start()] + "-> " + e["ret"] + " "
+        return sig.rstrip() + "\n" + e.get("contract", "") + "\n" + body
     p = REPO + "/" + e["file"]
     if not os.path.exists(p):
         raise ExtractError(f"lost anchor: {e['file']} missing")
